@@ -66,6 +66,31 @@ Theorem c11_exactly_once : forall h, wf_hist h -> NoDup (all_ids h) ->
 Proof. exact exactly_once. Qed.
 Print Assumptions c11_exactly_once.
 
+(* ---- a row shared with another table (beyond DESIGN 13.1's edge).  Another
+   table taking a row - one still outside this table or one of this table's
+   own rows, whatever this table holds at that moment - is no event of this
+   table: its log is what it was. *)
+Theorem c11_take_keeps_log : forall h r, wf_hist (h ++ [OtherAttachRow r]) ->
+  table_errors (run (h ++ [OtherAttachRow r])) = table_errors (run h).
+Proof. exact take_keeps_log. Qed.
+Print Assumptions c11_take_keeps_log.
+
+(* ... and what the other table then shows is what AddRow documents: the
+   errors each row it took showed at that moment, its own, and those raised on
+   its rows since *)
+Theorem c11_other_table : forall h, wf_hist h -> other_errors (run h) = view (other_expected h).
+Proof. exact other_log. Qed.
+Print Assumptions c11_other_table.
+
+(* nothing raised on the other table, or on a row after the other table took
+   it, ever shows up in this table's log.  (That nothing raised on a shared row
+   while it was here is lost, and that it stays there exactly once, is
+   [c11_exactly_once]: [delivered] remains true for such a row.) *)
+Theorem c11_elsewhere_never : forall h, wf_hist h -> NoDup (all_ids h ++ other_ids h) ->
+  forall e, In e (other_ids h) -> ~ In (Some e) (log_of (table_errors (run h))).
+Proof. exact elsewhere_never. Qed.
+Print Assumptions c11_elsewhere_never.
+
 (* non-vacuity: row 1 collects an error and a cell-callback error (on a row
    that had no container), a nil; the table gets a list with a nil; row 1 is
    attached; a separator is misused; a render callback fails; row 3 never joins *)
@@ -81,5 +106,23 @@ Example c11_example :
   /\ row_errors (run h) 3 = Some [Some 4].
 Proof.
   cbv zeta. split; [vm_compute; reflexivity|]. split; [|split; vm_compute; reflexivity].
+  vm_compute. repeat (constructor; [simpl; intuition discriminate|]). constructor.
+Qed.
+
+(* non-vacuity of the shared-row theorems: row 1 joins with one error, the
+   table gets another, the other table takes row 1 (and with it a copy of both),
+   row 1 and the other table collect errors there, this table goes on
+   accumulating; detached row 2 is taken with its own error only *)
+Example c11_example_shared :
+  let h := [ RowAddError 1 (Some 0); AttachRow 1; TableAddError (Some 1); OtherAddError (Some 2);
+             OtherAttachRow 1; OtherRowAddError 1 (Some 3); TableAddError (Some 4);
+             CallbackFails STblCellPre 1 (Some 5); RowAddError 2 (Some 6); OtherAttachRow 2;
+             AddSeparator 3; RowAddOnSeparator 3 7 ] in
+  wf_hist h /\ NoDup (all_ids h ++ other_ids h)
+  /\ table_errors (run h) = Some (map Some [0; 1; 4; 5; 7])
+  /\ other_errors (run h) = Some (map Some [2; 0; 1; 3; 6])
+  /\ row_errors (run h) 1 = other_errors (run h).
+Proof.
+  cbv zeta. split; [vm_compute; reflexivity|]. split; [|repeat split; vm_compute; reflexivity].
   vm_compute. repeat (constructor; [simpl; intuition discriminate|]). constructor.
 Qed.
